@@ -25,3 +25,13 @@ def registry():
                                       'last': 'padded_data[len(padded_data) - 1:] == bytes([padded_data[len(padded_data) - 1]])'}},
                      modifies=[], result='bytes'))
     return reg
+
+
+def units(prop, tier):
+    from vf.pyunit import pyvc_unit
+    if prop != 'C13':
+        return []
+    # block_size makes the length arithmetic non-linear: instantiated per value (DESIGN 2.6);
+    # exhaustive over 1..255 in the thorough tier
+    sizes = [1, 8, 16, 255] if tier == 'quick' else list(range(1, 256))
+    return [pyvc_unit(prop, 'padding.bs%03d' % bs, registry, [P + 'pad', P + 'unpad'], fix={'block_size': bs}) for bs in sizes]
